@@ -427,7 +427,8 @@ class Check:
             specs.append({"name": f"folder-env-{f}", "kind": "folder_env", "src": ["folder", f], "episodes": 6 if q else 12, "steps": 2})
         for g in range(3 if q else 12):
             sd = seed * 1000 + 850 + g
-            specs.append({"name": f"folder-env-gen-{sd}", "kind": "folder_env", "src": ["genfolder", {"seed": sd, "family": ["routed", "dmz", "wlan"][g % 3], "entries": 2 + g % 2}],
+            specs.append({"name": f"folder-env-gen-{sd}", "kind": "folder_env", "src": ["genfolder", {"seed": sd, "family": ["routed", "dmz", "wlan"][g % 3], "entries": 2 + g % 2,
+                                                                                                     "pattern": [[0, 0, 1], [0], None, [0], None, [0, 0, 1]][g % 6]}],
                           "episodes": 5 if q else 9, "steps": 2})
         for f in envrun.TEST_ASSETS:
             specs.append({"name": f"inv-{f}", "kind": "inventory", "src": ["asset", f]})
